@@ -438,7 +438,7 @@ class ModelEncoder(BaseEncoder):
     def encode(self):
         lines = []
         if self.model.doc is not None:
-            lines.append("\"\"\"" + self.model.doc + "\"\"\"")
+            lines.append(_doc_literal(self.model.doc))
 
         lines.append("from modelx.serialize.jsonvalues import *")
         lines.append("_name = \"%s\"" % self.model.name)
@@ -496,7 +496,7 @@ class SpaceEncoder(BaseEncoder):
 
         lines = []
         if self.space.doc is not None:
-            lines.append("\"\"\"" + self.space.doc + "\"\"\"")
+            lines.append(_doc_literal(self.space.doc))
 
         lines.append("from modelx.serialize.jsonvalues import *")
 
@@ -640,7 +640,7 @@ class CellsEncoder(BaseEncoder):
             if self.target.formula.source[:6] == "lambda":
                 line = self.target.name + " = " + self.target.formula.source
                 if self.target.doc:
-                    line += "\n" + ("\"\"\"%s\"\"\"" % self.target.doc)
+                    line += "\n" + _doc_literal(self.target.doc)
                 lines.append(line)
             else:
                 lines.append(self.target.formula.source)
@@ -686,6 +686,14 @@ class CellsEncoder(BaseEncoder):
 
     def instruct(self):
         return Instruction(self.pickle_value)
+
+
+def _doc_literal(doc):
+    """Return a string literal that evaluates to ``doc``"""
+    if "\\" in doc or '"""' in doc or doc.endswith('"') or "\r" in doc:
+        return repr(doc)    # The text between triple quotes would be altered
+    else:
+        return '"""' + doc + '"""'
 
 
 class BaseSelector:
